@@ -132,6 +132,6 @@ EXPORT errno_t _wcsncmp_s_chk(const wchar_t *restrict dest, rsize_t dmax,
         count--;
     }
 
-    *resultp = *dest - *src;
+    *resultp = count ? *dest - *src : 0;
     return RCNEGATE(EOK);
 }
